@@ -83,6 +83,7 @@ type Options struct {
 	Pyflakes   string   `json:"pyflakes,omitempty"`
 	ConfigFile string   `json:"config_file,omitempty"`
 	Verbose    bool     `json:"verbose,omitempty"`
+	Debug      bool     `json:"debug,omitempty"`
 	WorkingDir string   `json:"working_dir,omitempty"` // LinterOptions.WorkingDir (may differ from the process cwd)
 }
 
@@ -247,6 +248,7 @@ func lintOnce(w *World, res *LintResult, shared *sharedLinter) {
 			Pyflakes:       w.Opts.Pyflakes,
 			ConfigFile:     w.Opts.ConfigFile,
 			Verbose:        w.Opts.Verbose,
+			Debug:          w.Opts.Debug,
 			WorkingDir:     w.Opts.WorkingDir,
 			LogWriter:      &lockedWriter{b: &errb},
 		}
